@@ -256,7 +256,7 @@ def explore(fn, *, max_paths=20000, budget_s=600.0, timeout_ms=20000, setup=None
         if kind != "infeasible" and any(k == "a" for _, _, k in eng.trace) and any(k == "d" for _, _, k in eng.trace):
             # assumptions/axioms are added unchecked; make sure the path still exists
             # (a straight-line path needs no check: vacuity is guarded by the reachability twins)
-            r = eng.check(*eng.pc(feas=True))
+            r = eng.fallback(eng.pc(feas=True)) if FP_MODE else eng.check(*eng.pc(feas=True))
             if r == z3.unsat:
                 kind = "infeasible"
             elif r == z3.unknown:
@@ -277,7 +277,7 @@ def explore(fn, *, max_paths=20000, budget_s=600.0, timeout_ms=20000, setup=None
                 r = eng._negcache.get(key)
                 if r is None:
                     pcs = [cc if tt else z3.Not(cc) for cc, tt, kk in tr[:k] if kk != "s"]
-                    r = eng.check(*pcs, z3.Not(c))
+                    r = z3.unknown if FP_MODE else eng.check(*pcs, z3.Not(c))
                     if r == z3.unknown:
                         r = eng.fallback(pcs + [z3.Not(c)])
                     if r == z3.unknown:
@@ -636,7 +636,8 @@ def ite(cond, a, b):
     if not isinstance(cond, SB):
         return a if cond else b
     c = cond.e
-    if type(a).__name__ == "SF" or type(b).__name__ == "SF":
+    if type(a).__name__ == "SF" or type(b).__name__ == "SF" or (
+            FP_MODE and isinstance(a, (float, np.floating)) and isinstance(b, (float, np.floating))):
         from vf import fpx
 
         return fpx.fite(cond, a, b)
